@@ -106,7 +106,10 @@ def make_probes(case, info, r):
                 "mutate_drank": [["mutate", [["zz4", cs]]]],
                 "summarize_sum": [["summarize", [["zz6", sm]]]],
                 "filter": [["filter", [["shared", f"pos_{ic}", ["fn", "greater_than", [["c", ic], ["lit", 0]]]]]]],
-                "arrange": [["arrange", [["shared", f"ord_{ic}", ["ord", ["c", ic], True, True]]]], ["slice_head", 2, 0]],
+                # the shared key first, then every other column: the order is total up to identical rows, so that the two
+                # rows slice_head keeps are determined (ties in the shared key alone would leave them to the engine)
+                "arrange": [["arrange", [["shared", f"ord_{ic}", ["ord", ["c", ic], True, True]]]
+                             + [["ord", ["c", n], False, True] for n in names if n != ic]], ["slice_head", 2, 0]],
             }[kind]
             probes.append({"id": pid, "from": key, "steps": steps, "kind": kind})
     r.shuffle(probes)
